@@ -1,19 +1,26 @@
 #!/bin/bash
-# tools/try_mutant.sh <prop> <mutant-dir> [tier] : apply patch to /repo, confirm suite passes + demo fails, run the check, undo.
+# tools/try_mutant.sh <prop> <mutant-dir> [tier] : apply the patch in a scratch worktree of /repo (VERIF_REPO), confirm
+# suite passes + demo fails there, run the check against it, remove the worktree.  (/repo itself is not touched, so
+# background runs against /repo are not disturbed; `git -C /repo apply` + check + `git checkout -- .` is equivalent.)
 P=$1; D=$2; TIER=${3:-quick}
 export GOFLAGS=-mod=mod GOPROXY=off GOSUMDB=off GOTOOLCHAIN=local
-cd /repo || exit 9
-if [ -n "$(git status --porcelain)" ]; then echo "repo not clean"; exit 9; fi
-git apply --check $D/patch.diff || { echo "PATCH DOES NOT APPLY"; exit 9; }
-# demo must pass on the unchanged tree
-cp $D/demo_test.go /repo/zz_demo_test.go
-go test -vet=off -count=1 -run "$(grep -o 'func Test[A-Za-z0-9_]*' $D/demo_test.go | sed 's/func //' | paste -sd'|')" . > /tmp/demo_clean.txt 2>&1; DC=$?
+W=$(mktemp -d /tmp/mutrepo.XXXXXX)
+git -C /repo worktree add -q --detach $W HEAD || exit 9
+cd $W
+git apply --check $D/patch.diff || { echo "PATCH DOES NOT APPLY"; cd /; git -C /repo worktree remove --force $W; exit 9; }
+DEMODIR=.
+grep -q "^package j2x" $D/demo_test.go && DEMODIR=j2x
+grep -q "^package x2j" $D/demo_test.go && { grep -q "x2j-wrapper\|package x2j$" $D/notes.md 2>/dev/null; DEMODIR=x2j-wrapper; }
+[ -f $D/demo_dir ] && DEMODIR=$(cat $D/demo_dir)
+TESTS="$(grep -o 'func Test[A-Za-z0-9_]*' $D/demo_test.go | sed 's/func //' | paste -sd'|')"
+cp $D/demo_test.go $W/$DEMODIR/zz_demo_test.go
+( cd $W/$DEMODIR && go test -vet=off -count=1 -run "$TESTS" . > /tmp/demo_clean.txt 2>&1 ); DC=$?
 git apply $D/patch.diff
-go test -vet=off -count=1 -run "$(grep -o 'func Test[A-Za-z0-9_]*' $D/demo_test.go | sed 's/func //' | paste -sd'|')" . > /tmp/demo_mut.txt 2>&1; DM=$?
-rm -f /repo/zz_demo_test.go
-/verif/baseline_off.sh > /tmp/suite_mut.txt 2>&1; SU=$?
+( cd $W/$DEMODIR && go test -vet=off -count=1 -run "$TESTS" . > /tmp/demo_mut.txt 2>&1 ); DM=$?
+rm -f $W/$DEMODIR/zz_demo_test.go
+VERIF_REPO=$W /verif/baseline_off.sh > /tmp/suite_mut.txt 2>&1; SU=$?
 echo "demo on clean tree: rc=$DC (want 0) | demo with mutant: rc=$DM (want !=0) | suite with mutant: rc=$SU (want 0)"
-cd /verif && python3 check.py $P --tier $TIER > /tmp/check_mut.txt 2>&1; RC=$?
+cd /verif && VERIF_REPO=$W python3 check.py $P --tier $TIER > /tmp/check_mut.txt 2>&1; RC=$?
 echo "check $P $TIER exit=$RC"; grep -m4 "VIOLATION\|MACHINERY" /tmp/check_mut.txt; grep -A1 -m2 "VIOLATION" /tmp/check_mut.txt | grep "^   " | cut -c1-300
-cd /repo && git checkout -- . && git status --porcelain | head -3
+cd /; git -C /repo worktree remove --force $W
 exit 0
